@@ -1,6 +1,6 @@
 (* C12 -- Entry codec round-trips every log and never aliases pooled buffers.
    Only statements here; proofs live in the model files. *)
-From RW Require Import Base.Bytes Fmt.Codec Fmt.CodecFacts.
+From RW Require Import Base.Bytes Fmt.Codec Fmt.CodecFacts Fmt.Alias Fmt.Frame Wal.Model Wal.CodecIdFacts Gen.Constants.
 Open Scope N_scope.
 
 (* every raft.Log a Go program can hold (wf_log: uint64 index/term, uint8 type,
@@ -31,3 +31,33 @@ Qed.
 Example C12_ex_roundtrip :
   match encode_log ex_log with Some bs => decode_log bs | None => None end = Some ex_log.
 Proof. vm_compute. reflexivity. Qed.
+
+(* ---- no aliasing of pooled buffers (ownership model, see Fmt/Alias.v; PARTIAL by
+   nature: that the Go decoder copies is established by the harness oracle) ---- *)
+Theorem C12_no_alias_partial :
+  forall buf v, decode_vlog buf = Some v -> forall p p', view_of p v = view_of p' v.
+Proof. exact decoded_log_independent_of_pool. Qed.
+Print Assumptions C12_no_alias_partial.
+
+Theorem C12_owning_decoder_is_the_decoder :
+  forall buf p, option_map (view_of p) (decode_vlog buf) = decode_log buf.
+Proof. exact decode_vlog_is_decode_log. Qed.
+Print Assumptions C12_owning_decoder_is_the_decoder.
+
+(* ---- codec identifiers at Open ---- *)
+(* reserved ids (below FirstExternalCodecID, other than the built-in codec's) are rejected *)
+Theorem C12_reserved_codec_rejected :
+  forall c e, c_codec c < FirstExternalCodecID -> c_codec c <> BinaryCodecID ->
+    open_wal c e = (OErr RErrOther, e).
+Proof. exact reserved_codec_rejected. Qed.
+Print Assumptions C12_reserved_codec_rejected.
+
+(* a directory whose metadata lists a segment written with a different codec id is refused *)
+Theorem C12_foreign_codec_refused :
+  forall c e ps, dk_inited (e_disk e) = true -> e_fault e = None -> dk_meta (e_disk e) = Some ps ->
+    (exists s, In s (ps_segs ps) /\ si_codec s <> c_codec c) ->
+    exists r e', open_wal c e = (OErr r, e').
+Proof. exact foreign_codec_refused. Qed.
+Print Assumptions C12_foreign_codec_refused.
+(* "a WAL created with a custom codec reopens with that same codec" is the OReopen case of
+   seq_refinement_stmt (Props/C05.v) for every c with FirstExternalCodecID <= c_codec c. *)
